@@ -6,3 +6,15 @@ package binder
 //@ property C15
 //@ assigns nothing
 //@ ensures [binder-created] result != nil && fresh(result)
+
+// The built-in binder keeps its documents in a viper instance: SetConfig merges the new document on top of the earlier
+// ones (it never replaces them).
+//@ bind (d *ViperBinder) configure.Binder.DocsLen = d.Viper.VDocsLen
+//@ bind (d *ViperBinder) configure.Binder.DocAt = d.Viper.VDocAt
+//@ func (*ViperBinder).SetConfig
+//@ property C15
+//@ implements configure.Binder
+//@ requires [binder-built] d.Viper != nil
+//@ ghost at return: FedAt = store(FedAt, FedLen, c)
+//@ ghost at return: FedLen = FedLen + 1
+//@ ghost at return: Failed = Failed || result != nil
